@@ -31,8 +31,8 @@ package main
 import (
 	"fmt"
 	"os"
-	"runtime/pprof"
 	"runtime/debug"
+	"runtime/pprof"
 	"sort"
 	"strings"
 
@@ -128,16 +128,17 @@ type pair struct {
 func (p pair) String() string { return fmt.Sprintf("(V%d,rh%d)", p.V, p.RH) }
 
 type cworld struct {
-	P, R     *env.Node
-	carried  map[pair]uint64 // pair -> height of the committed certificate that carried it
-	pending  []pair          // pairs carried by the last committed certificate (applied by the next BeginBlock)
-	pendingH uint64
-	truth    map[pair]bool
-	viols    []mc.Viol
-	path     []int
-	start    int
-	probes   int
-	accepted int // probes accepted by the replica (each is then checked with L1)
+	P, R      *env.Node
+	carried   map[pair]uint64 // pair -> height of the committed certificate that carried it
+	pending   []pair          // pairs carried by the last committed certificate (applied by the next BeginBlock)
+	pendingH  uint64
+	truth     map[pair]bool
+	viols     []mc.Viol
+	path      []int
+	start     int
+	probes    int
+	accepted  int // probes accepted by the replica (each is then checked with L1)
+	fsmProbes int
 
 	committees map[uint64]lib.ValidatorSet
 	minStake   uint64
@@ -356,6 +357,9 @@ func (w *cworld) step(op int, probe bool) (ok bool, fatal error) {
 		if err := w.probeByzantineProposer(p, h); err != nil {
 			return false, err
 		}
+		if err := w.probeFSMAtMostOnce(h); err != nil {
+			return false, err
+		}
 	}
 	qc, er := w.P.Certify(p, 0, nil, 0)
 	if er != nil {
@@ -516,6 +520,82 @@ func (w *cworld) probeByzantineProposer(p *env.Proposal, h uint64) error {
 		if _, er := w.R.ValidateProposal(q, 0, false); er == nil {
 			w.accepted++
 			w.checkList("byzantine-proposer:"+strings.SplitN(va.name, "[", 2)[0], h, va.ds)
+		}
+	}
+	return nil
+}
+
+// probeFSMAtMostOnce: the state machine's own guard. A slash list that names one (validator, root height)
+// pair twice (one entry with the height twice, two entries with the same id) or names a pair that is
+// already indexed is handed to HandleDoubleSigners on a COPY of the proposer's state machine. Whether the
+// call fails or not, the validator may lose at most one double-sign slash for a fresh pair and nothing
+// for an indexed one. (Replica-side validation refuses such lists before they are certified; this is the
+// second line the property's anchors name: IsValidDoubleSigner + IndexDoubleSigner.)
+func (w *cworld) probeFSMAtMostOnce(h uint64) error {
+	sm := w.P.FSM()
+	params, e := sm.GetParamsVal()
+	if e != nil {
+		return e
+	}
+	stakeOf := func(m *fsm.StateMachine, v int) uint64 {
+		val, err := m.GetValidator(env.Addr(env.BLS(v)))
+		if err != nil || val == nil {
+			return 0
+		}
+		return val.StakedAmount
+	}
+	var fresh, indexed *pair
+	for q := range w.truth {
+		q := q
+		if q.RH > h || stakeOf(sm, q.V) == 0 {
+			continue
+		}
+		if _, ok := w.carried[q]; ok {
+			// the certificate of height c is applied by BeginBlock of c+1; the machine probed here has
+			// committed blocks up to h-1, so the pair is in the index iff c+1 <= h-1
+			if at := w.carried[q]; at+2 <= h && indexed == nil {
+				indexed = &q
+			}
+			continue
+		}
+		if fresh == nil || q.RH > fresh.RH || (q.RH == fresh.RH && q.V < fresh.V) {
+			fresh = &q
+		}
+	}
+	type lst struct {
+		name string
+		ds   []*lib.DoubleSigner
+		max  func(pre uint64) uint64
+	}
+	one := func(pre uint64) uint64 { return (pre*dsPercent + 99) / 100 }
+	none := func(uint64) uint64 { return 0 }
+	var lists []lst
+	var who int
+	if fresh != nil {
+		who = fresh.V
+		lists = append(lists,
+			lst{"height-twice-in-one-entry", []*lib.DoubleSigner{{Id: pubOf(fresh.V), Heights: []uint64{fresh.RH, fresh.RH}}}, one},
+			lst{"two-entries-same-pair", []*lib.DoubleSigner{{Id: pubOf(fresh.V), Heights: []uint64{fresh.RH}}, {Id: pubOf(fresh.V), Heights: []uint64{fresh.RH}}}, one})
+	}
+	if indexed != nil {
+		lists = append(lists, lst{"already-indexed-pair", []*lib.DoubleSigner{{Id: pubOf(indexed.V), Heights: []uint64{indexed.RH}}}, none})
+	}
+	for _, l := range lists {
+		v := who
+		if l.name == "already-indexed-pair" {
+			v = indexed.V
+		}
+		cp, e := sm.Copy()
+		if e != nil {
+			return e
+		}
+		pre := stakeOf(cp, v)
+		err := cp.HandleDoubleSigners(env.ChainID, params, l.ds)
+		post := stakeOf(cp, v)
+		cp.Discard()
+		w.fsmProbes++
+		if pre > post && pre-post > l.max(pre) {
+			w.viol("fsm-slashes-one-pair-more-than-once:"+l.name, fmt.Sprintf("height %d: HandleDoubleSigners with the list %s for V%d (error: %v) took %d of %d stake; one double-sign slash takes at most %d", h, l.name, v, err, pre-post, pre, l.max(pre)))
 		}
 	}
 	return nil
